@@ -744,9 +744,26 @@ class _BaseWindowForecaster(_SktimeForecaster):
 
         # generate cutoffs from forecasting horizon, note that cutoffs are
         # still based on integer indexes, so that they can be used with .iloc
-        cutoffs = fh.to_relative(self.cutoff) + len(y_train) - 2
-        cv = CutoffSplitter(cutoffs, fh=1, window_length=self.window_length_)
-        return self._predict_moving_cutoff(
+        # (counted from the position of the cutoff in the remembered series: the
+        # cutoff is its last time point only if the last update ended there)
+        if self.cutoff in y_train.index:
+            cutoff_pos = y_train.index.get_loc(self.cutoff)
+        else:
+            cutoff_pos = len(y_train) - 1
+        cutoffs = fh.to_relative(self.cutoff).to_numpy() + cutoff_pos - 1
+
+        # time points at or before the start of the remembered series have nothing
+        # before them to forecast from: they stay missing, under their own label
+        # (they used to come back labelled with other time points)
+        index = fh.to_absolute(self.cutoff).to_pandas()
+        y_pred = pd.Series(np.nan, index=index)
+        valid = cutoffs >= 0
+        if not valid.any():
+            return y_pred
+        cv = CutoffSplitter(
+            cutoffs[valid], fh=1, window_length=self.window_length_
+        )
+        y_pred_valid = self._predict_moving_cutoff(
             y_train,
             cv,
             X,
@@ -754,6 +771,10 @@ class _BaseWindowForecaster(_SktimeForecaster):
             return_pred_int=return_pred_int,
             alpha=alpha,
         )
+        if valid.all():
+            return y_pred_valid
+        y_pred.iloc[np.where(valid)[0]] = np.asarray(y_pred_valid)
+        return y_pred
 
     def _predict_last_window(
         self, fh, X=None, return_pred_int=False, alpha=DEFAULT_ALPHA
